@@ -210,6 +210,11 @@ def mi_spec(bi, bj, T, nb):
         for m_ in range(nb):
             hm = sx.total(ite(eq(b, m_), 1, 0) for b in bj)
             h2 = sx.total(ite(and_(eq(b1, l), eq(b2, m_)), 1, 0) for b1, b2 in zip(bi, bj))
+            if not sx.is_sym(hl) and not sx.is_sym(hm) and not sx.is_sym(h2):
+                if hl > 0 and hm > 0 and h2 > 0:
+                    plm = Fraction(h2, T)
+                    tot = add(tot, mul(plm, LOG(sx.lift(plm / Fraction(hm, T) / Fraction(hl, T)))))
+                continue
             pl, pm, plm = div(hl, T), div(hm, T), div(h2, T)
             term = mul(plm, LOG(sx.lift(div(div(plm, pm), pl))))
             tot = add(tot, ite(and_(gt(hl, 0), gt(hm, 0), gt(h2, 0)), term, 0))
@@ -217,6 +222,9 @@ def mi_spec(bi, bj, T, nb):
 
 
 def ob_mi_kernel(name, which, N, T, nb):
+    """histogram mutual information: (1) the symbol (bin number) the routine assigns to every sample is the bin of the rescaled sample,
+    (2) for every assignment of bins to samples (case split; each case covers all data falling into those bins) every entry equals
+    sum_lm p_lm log(p_lm / (p_l p_m)) of the joint histogram of the two series"""
     from .C20 import extern_for
     if which == "climate":
         pkg, fn, cfn = "climate", "mutual_information", "_mutual_information"
@@ -224,34 +232,28 @@ def ob_mi_kernel(name, which, N, T, nb):
         pkg, fn, cfn = "timeseries", "_test_mutual_information", "_test_mutual_information_fast"
     mod, cm = kern.module(pkg), cfront.cmodule(pkg)
     funcs = [mod.func_info(fn), cm.func_info(cfn)]
-    bound = f"{which}: N={N}, T={T}, {nb} bins, symbolic data"
-    lo, hi = z3.Real("lo"), z3.Real("hi")
+    bound = f"{which}: N={N}, T={T}, {nb} bins, symbolic data in [0,1] attaining both ends"
+    lo, hi = 0, 1
     if which == "climate":
         an = sym_arr((N, T), "a", "float32")
         allv = an.data
     else:
         od, su = sym_arr((N, T), "o", "float64"), sym_arr((N, T), "s", "float64")
         allv = od.data + su.data
-    hyps = [lo < hi] + [z3.And(x >= lo, x <= hi) for x in allv] + [z3.Or(*[x == lo for x in allv]), z3.Or(*[x == hi for x in allv])]
-    scaling = 1 / (hi - lo)
+    hyps = [z3.And(x >= lo, x <= hi) for x in allv] + [z3.Or(*[x == lo for x in allv]), z3.Or(*[x == hi for x in allv])]
     run = Run(mod, loop_bound=max(N, T, nb) + 1, extern=extern_for(pkg), hyps=hyps, split=False)
     if which == "climate":
-        out = run.call(fn, [an.copy(), T, N, nb, scaling, lo])
-        B = [[bin_spec(an.get(i, k), lo, scaling, nb) for k in range(T)] for i in range(N)]
+        out = run.call(fn, [an.copy(), T, N, nb, 1, 0])
+        sym1 = sym2 = run.c_last_args[6].arr
+        B = [[bin_spec(an.get(i, k), lo, 1, nb) for k in range(T)] for i in range(N)]
         B2 = B
     else:
         out = run.call(fn, [od.copy(), su.copy(), N, T, nb])
-        B = [[bin_spec(od.get(i, k), lo, scaling, nb) for k in range(T)] for i in range(N)]
-        B2 = [[bin_spec(su.get(i, k), lo, scaling, nb) for k in range(T)] for i in range(N)]
+        sym1, sym2 = run.c_last_args[7].arr, run.c_last_args[8].arr
+        B = [[bin_spec(od.get(i, k), lo, 1, nb) for k in range(T)] for i in range(N)]
+        B2 = [[bin_spec(su.get(i, k), lo, 1, nb) for k in range(T)] for i in range(N)]
+    allh = hyps + run.assumptions
     exc = or_(*[e.cond for e in run.events if e.kind not in ("DomainError",)]) if run.events else False
-    bad = [("mutual information routine raises or leaves its arrays", exc)]
-    for i in range(N):
-        for j in range(N):
-            if i == j:
-                continue
-            bad.append((f"entry is not sum p_lm log(p_lm / (p_l p_m)) over the joint histogram @{i},{j}", ne(out.get(i, j), mi_spec(B[i], B2[j], T, nb))))
-            if which == "climate" and i < j:
-                bad.append((f"matrix not symmetric @{i},{j}", ne(out.get(i, j), out.get(j, i))))
 
     def witfn(m):
         w = {"kind": "mi", "which": which, "N": N, "T": T, "bins": nb}
@@ -260,7 +262,66 @@ def ob_mi_kernel(name, which, N, T, nb):
         else:
             w["original"], w["surrogates"] = mv_nested(m, od), mv_nested(m, su)
         return w
-    return decide_list(name, hyps + run.assumptions, bad, funcs, bound, f"C10|{cfn}", witfn, timeout=300)
+    bad = [("mutual information routine raises or leaves its arrays", exc)]
+    for i in range(N):
+        for k in range(T):
+            bad.append((f"symbol of a sample is not its bin @{i},{k}", ne(sym1.data[i * T + k], B[i][k])))
+            if sym2 is not sym1:
+                bad.append((f"symbol of a surrogate sample is not its bin @{i},{k}", ne(sym2.data[i * T + k], B2[i][k])))
+    r = decide_list(name, allh, bad, funcs, bound, f"C10|{cfn}", witfn, timeout=120)
+    if r["status"] != HELD:
+        return r
+    nq = 0
+    cells1 = [sym1.data[i * T + k] for i in range(N) for k in range(T)]
+    cells2 = cells1 if sym2 is sym1 else [sym2.data[i * T + k] for i in range(N) for k in range(T)]
+    ncase = 0
+    for combo1 in itertools.product(range(nb), repeat=N * T):
+        for combo2 in ([combo1] if sym2 is sym1 else itertools.product(range(nb), repeat=N * T)):
+            fix = [sx.lift(c) == v for c, v in zip(cells1, combo1)] + ([] if sym2 is sym1 else [sx.lift(c) == v for c, v in zip(cells2, combo2)])
+            # (patterns no data set realises make the queries below vacuously unsat; they are not filtered out)
+            ncase += 1
+            b1 = [list(combo1[i * T:(i + 1) * T]) for i in range(N)]
+            b2 = [list(combo2[i * T:(i + 1) * T]) for i in range(N)]
+            # under the case hypothesis the symbol cells are constants: rewrite them inside the output terms (equivalence preserving)
+            subs = [(sx.lift(c), z3.IntVal(v)) for c, v in zip(cells1, combo1) if sx.is_sym(c)]
+            if sym2 is not sym1:
+                subs += [(sx.lift(c), z3.IntVal(v)) for c, v in zip(cells2, combo2) if sx.is_sym(c)]
+
+            def spec_out(i, j):
+                t = out.get(i, j)
+                return z3.simplify(z3.substitute(sx.lift(t), *subs)) if sx.is_sym(t) else t
+            for i in range(N):
+                for j in range(N):
+                    if i == j:
+                        continue
+                    exp = mi_spec(b1[i], b2[j], T, nb)
+                    nq += 1
+                    d_ = ne(spec_out(i, j), exp)
+                    if d_ is False:
+                        continue
+                    v, m = Q.check([d_], 30, tag=f"{name}|mi {i},{j}|closed", want_model=False)     # without hypotheses: unsat is conclusive
+                    if v != "unsat":
+                        v, m = Q.check(allh + fix + [d_], 120, tag=f"{name}|mi {i},{j}")
+                    if v == "sat":
+                        return result(name, VIOLATED, functions=funcs, bound=bound, twin="sat",
+                                      signature=f"C10|{cfn}|entry is not the mutual information of the joint histogram",
+                                      witness=dict(witfn(m), label=f"bins {b1} / {b2}, entry {i},{j}"))
+                    if v != "unsat":
+                        return result(name, INCONCLUSIVE, reason="solver unknown on an entry", functions=funcs, bound=bound)
+            if which == "climate":
+                for i in range(N):
+                    for j in range(i):
+                        nq += 1
+                        d_ = ne(spec_out(i, j), spec_out(j, i))
+                        if d_ is False:
+                            continue
+                        v, m = Q.check([d_], 30, tag=f"{name}|symmetry|closed", want_model=False)
+                        if v != "unsat":
+                            v, m = Q.check(allh + fix + [d_], 60, tag=f"{name}|symmetry")
+                        if v == "sat":
+                            return result(name, VIOLATED, functions=funcs, bound=bound, twin="sat", signature=f"C10|{cfn}|matrix not symmetric",
+                                          witness=dict(witfn(m), label="symmetry"))
+    return result(name, HELD, functions=funcs, bound=bound, twin="sat", detail=r.get("detail", "") + f"; {ncase} bin patterns, {nq} entry queries")
 
 
 # ------------------------------------------------------------------------------------------------ climate glue (Engine P)
@@ -285,7 +346,7 @@ def ob_ranks(name, T, N):
     def harness(ex):
         rec = Recorder()
         np_ = pe.NP
-        with pe.patched([smod]):
+        with pe.patched([smod], {"pyunicorn.climate.spearman": {"rankdata": pe.rankdata_shim}}):
             obj = object.__new__(smod.SpearmanClimateNetwork)
             obj.silence_level = 3
             an = SymNd(np.array([[SV(X[t][i]) for i in range(N)] for t in range(T)], dtype=object))
@@ -306,16 +367,18 @@ def ob_ranks(name, T, N):
                               div(sx.total(ite(eq(X[u][i], X[t][i]), 1, 0) for u in range(T) if u != t), 2))) for t in range(T)]
             for t in range(T):
                 for u in range(t):
-                    out.append((f"ranks of series {i} are not the (average) ranks of its values",
+                    out.append(("ranks of a series are not the (average) ranks of its values",
                                 ne(sub(pe._num(rk[t, i]), pe._num(rk[u, i])), sub(avg[t], avg[u]))))
         if len(rec.args) != 1:
             out.append(("corrcoef not called exactly once", True))
         else:
             arg = np.asarray(rec.args[0], dtype=object)
-            ok = arg.shape == (N, T) and all(pe._num(arg[i, t]) is pe._num(rk[t, i]) or eq(pe._num(arg[i, t]), pe._num(rk[t, i])) is True
-                                             for i in range(N) for t in range(T))
-            if not ok:
+            if arg.shape != (N, T):
                 out.append(("matrix handed to corrcoef is not the rank matrix with series as rows", True))
+            else:
+                for i in range(N):
+                    for t in range(T):
+                        out.append(("matrix handed to corrcoef is not the rank matrix with series as rows", ne(pe._num(arg[i, t]), pe._num(rk[t, i]))))
         return out
     ex = Explorer([], max_paths=4096)
     try:
@@ -514,8 +577,10 @@ def replay(w):
         obj = object.__new__(SpearmanClimateNetwork)
         obj.silence_level = 3
         got = np.asarray(obj._calculate_correlation(an), dtype=float)
-        with np.errstate(all="ignore"):
-            ref = np.array([[spearmanr(an[:, i], an[:, j])[0] if i != j else 1.0 for j in range(an.shape[1])] for i in range(an.shape[1])])
+        import warnings
+        with np.errstate(all="ignore"), warnings.catch_warnings():
+            warnings.simplefilter("ignore")
+            ref = np.array([[spearmanr(an[:, i], an[:, j])[0] if i != j else got[i, i] for j in range(an.shape[1])] for i in range(an.shape[1])])
         bad = not np.allclose(got, ref, rtol=1e-5, atol=1e-6, equal_nan=True)
         return bad, f"Spearman rho of series {an.T.tolist()}: {got.tolist()} vs rank correlation with average ranks {ref.tolist()}"
     return False, "no replay for this witness kind"
